@@ -43,6 +43,18 @@ HAPPY_SIMS = [('np', C({1, 2, 3, 5, 6}, M(), dup=2, unk=1)),
               ('pd', C({1, 2, 3, 5, 6}, M(cp=True, sp=True, cd=True, sd=True), dup=1)),
               ('sp', C({1, 2, 3, 5, 6}, M(sp=True), dup=1)),
               ('dd', C({1, 2, 3, 5, 6}, M(cd=True, sd=True), dup=1, unk=1))]
+def mixed_c01(tier):
+    out = []
+    for rep in range(1 if tier == 'quick' else 5):
+        for net, extra in (('unix', {}), ('frag', {'frag': 9}), ('unix', {'srvpipe': True}), ('unix', {'clidirect': True}), ('unix', {'srvdirect': True}),
+                           ('frag', {'poll': True, 'readers': 2, 'frag': 30})):
+            out.append(dict({'network': net, 'streams': 3 + rep % 3, 'pushfirst': 1, 'msgs': 4, 'unary': 8, 'end': 'close', 'after': 8}, **extra))
+    return out
+
+def st_c04(tier, sd):
+    cfgs = st_c01(tier, sd)
+    return cfgs[:8] if tier == 'quick' else cfgs
+
 def st_c01(tier, sd):
     big = tier == 'thorough'
     n = 400 if big else 120
@@ -54,7 +66,7 @@ def st_c01(tier, sd):
             if mode.get('poll') and net not in ('frag',):
                 continue
             c = {'network': net, 'codec': codec, 'header': hdr, 'conns': 3, 'callers': 4, 'calls': n, 'sizes': sizes,
-                 'failevery': 9, 'frag': 9 if net == 'frag' else 0, 'bufsize': [0, 512, 70000][len(out) % 3], 'forms': 'call,call,go,ctx,rt'}
+                 'failevery': 9, 'missevery': 11, 'frag': 9 if net == 'frag' else 0, 'bufsize': [0, 512, 70000][len(out) % 3], 'forms': 'call,call,go,ctx,rt'}
             c.update(mode)
             out.append(c)
     return out
@@ -67,13 +79,13 @@ def st_c05(tier, sd):
             if mode.get('poll') and net != 'frag':
                 continue
             c = {'network': net, 'codec': codec, 'conns': 3, 'callers': 1, 'calls': n, 'srvpipe': True, 'clipipe': True,
-                 'sizes': [0, 0, 20, 40, 128, 3000, 70000], 'failevery': 3, 'frag': 11 if net == 'frag' else 0, 'forms': 'go', 'delayus': 200}
+                 'sizes': [0, 0, 20, 40, 128, 3000, 70000], 'failevery': 3, 'missevery': 6, 'frag': 11 if net == 'frag' else 0, 'forms': 'go', 'delayus': 200}
             c.update(mode)
             out.append(c)
     # server pipelining only (several callers): one handler at a time per connection
     for net in ('unix', 'frag'):
         out.append({'network': net, 'codec': 'pb', 'conns': 2, 'callers': 4, 'calls': n // 2, 'srvpipe': True, 'sizes': [0, 20, 600],
-                    'failevery': 4, 'frag': 7 if net == 'frag' else 0, 'delayus': 100, 'poll': net == 'frag', 'readers': 3})
+                    'failevery': 4, 'missevery': 6, 'frag': 7 if net == 'frag' else 0, 'delayus': 100, 'poll': net == 'frag', 'readers': 3})
     return out
 
 CONN_PLANS = {
@@ -92,6 +104,7 @@ CONN_PLANS = {
         'sims': HAPPY_SIMS,
         'pads': [0, 1, 24, 127, 128, 600, 70000],
         'stress': st_c01,
+        'mixed': mixed_c01,
     },
     'C02': {
         'own': 'C02',
@@ -102,6 +115,9 @@ CONN_PLANS = {
         'devs': [('sweepkeep', ['SweepKeepsEntries', 'WriteFailAlwaysCompletes'], C({1, 2, 3}, M(), wfail=1, cut=1, close=1)),
                  ('sweepkeepP', ['SweepKeepsEntries', 'WriteFailAlwaysCompletes'], C({1, 2, 3}, M(cp=True, sp=True), wfail=1, cut=1, close=1)),
                  ('dispkeep', ['DispatchKeepsEntry'], C({1, 2, 3}, M(), cut=1, dup=1)),
+                 ('rmfin_dup', ['RemoveAtFinish'], C({1, 2, 3}, M(), dup=1)),
+                 ('rmfin_eof', ['RemoveAtFinish'], C({1, 2, 3}, M(), cut=1)),
+                 ('rmfin_dupP', ['RemoveAtFinish'], C({1, 2, 5}, M(cp=True, sp=True), dup=1)),
                  ('sweepskip', ['SweepSkips'], C({1, 2, 3}, M(), cut=1))],
         'sims': FAULT_SIMS,
     },
@@ -132,6 +148,7 @@ CONN_PLANS = {
                  ('pinghandler', ['PingRunsHandler'], C({1, 2, 3}, M())),
                  ('dupexecP', ['DupExec'], C({1, 2, 3}, M(sp=True)))],
         'sims': HAPPY_SIMS + FAULT_SIMS[:2],
+        'stress': st_c04,
         'also_transport': 'C14',
     },
     'C05': {
@@ -142,7 +159,8 @@ CONN_PLANS = {
                    'thorough': [('pp4', C({1, 2, 5, 6}, M(cp=True, sp=True), dup=1, cut=1)),
                                 ('pd4', C({1, 2, 5, 6}, M(cp=True, sp=True, cd=True, sd=True), dup=1)),
                                 ('pp3f', C({1, 2, 3}, M(cp=True, sp=True), dup=1, unk=1, cut=1, loss=1, wfail=1, close=1))]},
-        'devs': [('errinline', ['ErrorInline'], C({1, 2, 6}, M(cp=True, sp=True))),
+        'devs': [('errinline', ['ErrorInline'], C({1, 2, 10}, M(cp=True, sp=True))),
+                 ('lookupinline', ['LookupFailInline'], C({1, 2, 6}, M(cp=True, sp=True))),
                  ('unordfin', ['UnorderedFinish'], C({1, 2, 5}, M(cp=True, sp=True))),
                  ('unordexec', ['UnorderedExec'], C({1, 2, 5}, M(cp=True, sp=True)))],
         'sims': [('pp', C({1, 2, 5, 6, 9, 10}, M(cp=True, sp=True), dup=1)),
@@ -174,6 +192,7 @@ CONN_PLANS = {
         'sims': [('np', C({1, 2, 4, 8}, M(), dup=1, ctx=None)),
                  ('pp', C({1, 2, 4, 8}, M(cp=True, sp=True), dup=1, ctx=None)),
                  ('dd', C({1, 2, 4, 8}, M(cd=True, sd=True), cut=1, ctx=None))],
+        'also_transport': 'C14',
     },
 }
 
@@ -293,6 +312,26 @@ def conn_check(pid, tier, replay_file=None):
         if len(cov['samples']) < 4 and cfgs:
             cov['samples'].append({'stress_config': cfgs[0], 'result': {k: v for k, v in (results[0] if results else {}).items() if k != 'failures'}})
         lap('stress')
+    if plan.get('mixed') and not replay_file:
+        # unary calls and pings sharing a connection with streams, and using it after the streams were closed (objects the stream
+        # operations recycled must not leak into ordinary calls)
+        scs = []
+        for j, sc in enumerate(plan['mixed'](tier)):
+            sc = dict(sc); sc.setdefault('seed', seed() * 100 + j); sc.setdefault('name', '%s-mx%d' % (pid, j))
+            scs.append(sc)
+        results, scr = cf.run_stress(scs, pid + 'm', cmd='sstress')
+        cov['mixed_scenarios'] = len(results)
+        cov['mixed_calls'] = sum(r.get('calls', 0) for r in results)
+        for r in results:
+            for fl in (r.get('failures') or [])[:3]:
+                cfg = [x for x in scs if x['name'] == r['name']]
+                violations.append({'property': pid, 'signature': 'mixed:' + ' '.join(fl.split()[:6]), 'summary': '%s: calls sharing a connection with streams (scenario %s): %s' % (pid, r['name'], fl),
+                                   'stress_config': cfg[0] if cfg else None, 'schedule': None, 'finding': {'kind': 'scenario', 'failure': fl}, 'trace': []})
+        for cr in scr:
+            first = cr['panic'].splitlines()[0] if cr['panic'] else 'crash'
+            violations.append({'property': pid, 'signature': 'crash:' + first[:80], 'summary': '%s: the process crashed inside hslam/rpc in scenario %s: %s' % (pid, (cr['config'] or {}).get('name'), first),
+                               'stress_config': cr['config'], 'schedule': None, 'finding': {'kind': 'crash', 'panic': cr['panic']}, 'trace': []})
+        lap('mixed')
     if plan.get('also_stream') and not replay_file:
         # outstanding stream calls (open / close of a stream) at the moment the connection ends: schedules of RpcStream.tla
         sv, scov, sass = stream_core(pid, STREAM_PLANS[plan['also_stream']], tier, None, models=False)
@@ -349,6 +388,8 @@ TRANS_PLANS = {
                  ('wrongaddr', ['WrongAddress'], TC(addrs=('a', 'b'), ids=3, maxclock=3)),
                  ('nomark', ['NoMarkDead'], TC(ids=3, callers=(1,), maxclock=1, maxcalls=6, kills=1)),
                  ('appendidle', ['AppendIdleNoCheck'], TC(ids=4, callers=(1, 2), maxclock=3, maxcalls=4, kills=1)),
+                 ('deadline', ['DeadlineMarksDead'], TC(ids=2, callers=(1, 2), maxconns=1, maxidle=1, maxclock=1, maxcalls=3, kills=0)),
+                 ('appendidle2', ['AppendIdleNoCheck', 'RetireDropsDead'], TC(ids=4, callers=(1, 2), maxclock=3, maxcalls=4, kills=1)),
                  ('rrnocheck', ['RoundRobinNoCheck'], TC(ids=3, callers=(1, 2), maxclock=1, maxcalls=3, kills=1)),
                  ('replacedead', ['ReplaceKeepsDead'], TC(ids=4, callers=(1, 2), maxclock=3, maxcalls=4, kills=1))],
         'sims': [('s1', TC(ids=6, callers=(1, 2), maxclock=6, maxcalls=5, kills=2)),
@@ -362,8 +403,10 @@ TRANS_PLANS = {
                    'thorough': [('t1', TC(ids=3, callers=(1, 2), maxclock=4, maxcalls=2, kills=1)),
                                 ('t3', TC(ids=3, callers=(1, 2), maxconns=2, maxidle=2, ka=1, ito=1, maxclock=4, maxcalls=2, kills=0))]},
         'devs': [('idlebusy', ['IdleCloseIgnoresBusy'], TC(ids=3, maxclock=4, kills=0)),
+                 ('expirerear', ['ExpireChecksRear'], TC(ids=3, callers=(1, 2), maxconns=2, maxidle=2, maxclock=5, maxcalls=3, kills=0)),
                  ('retirebusy', ['RetireBusy'], TC(ids=3, maxclock=3, kills=0)),
-                 ('closeidlebusy', ['CloseIdleBusy'], TC(ids=3, maxclock=2, kills=0))],
+                 ('closeidlebusy', ['CloseIdleBusy'], TC(ids=3, maxclock=2, kills=0)),
+                 ('closehalf', ['CloseHalfIdle'], TC(ids=3, callers=(1, 2), maxconns=2, maxidle=2, maxclock=3, maxcalls=2, kills=0))],
         'sims': [('s1', TC(ids=6, callers=(1, 2, 3), maxclock=8, maxcalls=4, kills=0)),
                  ('s3', TC(ids=6, callers=(1, 2), maxconns=2, maxidle=2, ka=1, ito=1, maxclock=8, maxcalls=4, kills=1)),
                  ('s4', TC(ids=6, callers=(1, 2), maxconns=1, maxidle=1, maxclock=8, maxcalls=5, kills=0))],
@@ -475,6 +518,7 @@ CLI_PLANS = {
                                 ('lt3', KC(addrs=ABC, policy='lt', upd=(('a', 'b', 'c'),), init=('a', 'b', 'c'), maxupd=0, flips=1, calls=5, fb=0, lats=(10, 30), callers=(1,))),
                                 ('rnd3', KC(addrs=ABC, policy='random', upd=(('a', 'b', 'c'),), init=('a', 'b', 'c'), maxupd=0, flips=1, calls=4, fb=0))]},
         'devs': [('cursor', ['CursorNotAdvanced'], KC(addrs=ABC, upd=(('a', 'b', 'c'),), init=('a', 'b', 'c'), maxupd=0, flips=0, calls=4, fb=0, callers=(1,))),
+                 ('rebuild', ['SpuriousRebuild'], KC(addrs=ABC, upd=(('a', 'b', 'c'),), init=('a', 'b', 'c'), maxupd=0, flips=1, calls=4, fb=0, callers=(1,))),
                  ('maxmin', ['MaxInsteadOfMin'], KC(policy='lt', upd=(('a', 'b'),), maxupd=0, flips=0, calls=5, fb=0, lats=(10, 30), callers=(1,))),
                  ('probeall', ['ProbeEveryCall'], KC(policy='lt', upd=(('a', 'b'),), maxupd=0, flips=0, calls=4, fb=0, lats=(10, 30), callers=(1,)))],
         'sims': [('rr', KC(addrs=ABC, upd=(('a', 'b', 'c'),), init=('a', 'b', 'c'), maxupd=0, flips=2, calls=12, fb=0, callers=(1,))),
@@ -543,7 +587,11 @@ def cli_check(pid, tier, replay_file=None):
                                           'schedule_len': len(s['steps']) if s else 0})
             if s is None:
                 raise Machinery('deviation %s produced no counterexample (vacuity)' % dev)
-            schedules.append(s)
+            # the Client iterates over Go maps (target map): what a directed schedule shows depends on the iteration order of that
+            # run, so each one is replayed several times
+            for rep in range(8):
+                s2 = dict(s); s2['name'] = s['name'] if rep == 0 else '%s#%d' % (s['name'], rep)
+                schedules.append(s2)
         nsim = 30 if tier == 'quick' else 300
         for j, (tag, c) in enumerate(plan['sims']):
             ss, res = kf.sim_schedules('%s_%s' % (pid, tag), c, nsim, 50, sd * 1000 + j, forms)
@@ -595,6 +643,21 @@ def stream_scenarios(tier):
                           'msgs': 3 + len(out) % 5, 'unary': len(out) % 6, 'end': end, 'frag': 7 if net == 'frag' else 0}
                     sc.update(mode)
                     out.append(sc)
+    # messages that wait unread in the server's stream while other traffic flows (with and without Server.SetNoCopy); traffic on
+    # the connection after its streams were closed; streams closed at the very moment a reader enters ReadMessage
+    for rep in range(reps):
+        for net, poll, readers in (('unix', False, 0), ('frag', False, 0), ('frag', True, 2)):
+            for nocopy in (False, True):
+                for mode in ({}, {'srvdirect': True}, {'srvpipe': True}):
+                    out.append(dict({'network': net, 'poll': poll, 'readers': readers, 'streams': 2, 'msgs': 8, 'hold': 48, 'srvnocopy': nocopy, 'end': 'close',
+                                     'frag': 9 if net == 'frag' else 0}, **mode))
+            out.append({'network': net, 'poll': poll, 'readers': readers, 'streams': 3, 'pushfirst': 1, 'msgs': 4, 'unary': 4, 'end': 'close', 'after': 8,
+                        'frag': 5 if net == 'frag' else 0})
+            out.append({'network': net, 'poll': poll, 'readers': readers, 'streams': 1, 'msgs': 2, 'end': 'close', 'raceclose': 400 if tier == 'quick' else 2000,
+                        'frag': 0})
+            for mode in ({}, {'srvpipe': True}, {'srvdirect': True}):
+                out.append(dict({'network': net, 'poll': poll, 'readers': readers, 'streams': 1, 'msgs': 2, 'end': 'close', 'burstclose': 12 if tier == 'quick' else 60,
+                                 'frag': 0}, **mode))
     return out
 
 STREAM_PLANS = {
@@ -857,6 +920,22 @@ def c08_check(pid, tier, replay_file=None):
             violations.append({'property': pid, 'signature': 'c08:%s:%s' % (mode, ' '.join(fl.split()[2:6])), 'summary': 'C08 (%s): %s' % (mode, fl),
                                'schedule': None, 'finding': {'kind': mode, 'failure': fl}, 'trace': []})
         cov['samples'].extend(((result or {}).get('samples') or [])[:2])
+    # 3. well-formed but hostile timing: a burst of large stream messages with the close frame right behind it, then a call
+    scs = []
+    for j, (net, extra) in enumerate((('unix', {}), ('unix', {'srvpipe': True}), ('unix', {'srvdirect': True}), ('frag', {'frag': 200}),
+                                      ('frag', {'poll': True, 'readers': 2, 'frag': 200}), ('frag', {'poll': True, 'readers': 1, 'srvpipe': True, 'frag': 0}))):
+        scs.append(dict({'name': 'C08-bc%d' % j, 'network': net, 'streams': 1, 'msgs': 2, 'end': 'close', 'burstclose': 10 if tier == 'quick' else 60,
+                         'seed': seed() * 10 + j}, **extra))
+    sres, scr = cf.run_stress(scs, pid + 'b', cmd='sstress')
+    cov['worker_modes']['stream-burst-close'] = {'cases': sum(sc['burstclose'] for sc in scs), 'crashes': len(scr)}
+    for cr in scr:
+        first = cr['panic'].splitlines()[0] if cr['panic'] else 'crash'
+        violations.append({'property': pid, 'signature': 'crash:burstclose:' + first[:60], 'summary': 'C08: the process crashed when a stream was closed right behind a burst of its messages (%s): %s' % (
+            json.dumps({k: v for k, v in (cr['config'] or {}).items() if k != 'name'}), first), 'schedule': None, 'stress_config': cr['config'], 'finding': cr, 'trace': []})
+    for r in sres:
+        for fl in (r.get('failures') or [])[:2]:
+            violations.append({'property': pid, 'signature': 'c08:burstclose:' + ' '.join(fl.split()[:5]), 'summary': 'C08 (stream burst + close): %s' % fl, 'schedule': None,
+                               'finding': {'kind': 'burstclose', 'failure': fl}, 'trace': []})
     if not cov['samples']:
         cov['samples'] = ['none']
     cov['evaluations'] = sum(v['cases'] for v in cov['worker_modes'].values())
@@ -928,7 +1007,7 @@ def c12_check(pid, tier, replay_file=None):
         w = {'name': 'cfg%d' % i, 'network': c['network'], 'tls': c['tls'], 'header': c['header'], 'codec': c['codec'], 'byname': c['byname'],
              'poll': c['poll'], 'srvpipe': c['srvpipe'], 'srvdirect': c['srvdirect'], 'ctxbuf': c['ctxbuf'], 'nocopy': c['nocopy'],
              'clipipe': c['clipipe'], 'clidirect': c['clidirect'], 'bufsize': c['bufsize'], 'conns': 2, 'callers': 2,
-             'calls': 16 if tier == 'quick' else 10, 'seed': 4242 + seed(), 'failevery': 4, 'frag': 9 if c['network'] == 'frag' else 0,
+             'calls': 16 if tier == 'quick' else 10, 'seed': 4242 + seed(), 'failevery': 4, 'missevery': 7, 'frag': 9 if c['network'] == 'frag' else 0,
              'readers': 2 if c['poll'] else 0, 'sizes': [0, 1, 20, 127, 128, 600, 5000, 66000, 80000]}
         if c['network'] == 'ws':
             w.update({'oneatatime': True, 'forms': 'call,ctx', 'callers': 1, 'calls': 2 * w['calls']})
@@ -1052,7 +1131,7 @@ def c11_workloads(tier, sd, ctxcases):
     work = []
     for i, (net, codec, header, bs, extra) in enumerate(rows):
         w = {'name': 'ret%d' % i, 'network': net, 'codec': codec, 'header': header, 'bufsize': bs, 'conns': 2, 'callers': 3, 'calls': 70 if not big else 50,
-             'seed': 1100 + 17 * i + sd, 'failevery': 5, 'retain': True, 'sizes': sizes_around(bs or 65536)}
+             'seed': 1100 + 17 * i + sd, 'failevery': 5, 'missevery': 9, 'retain': True, 'sizes': sizes_around(bs or 65536)}
         w.update(extra)
         if w.get('callers') == 1:
             w['calls'] = 3 * w['calls']
@@ -1199,6 +1278,12 @@ def c20_check(pid, tier, replay_file=None):
             continue
         seen.add(v['signature']); uniq.append(v)
     cov['traces_validated_against_impl'] = len(results)
+    if not replay_file:
+        # the pool of a Transport with retired (idle) connections at Close: schedules of Transport.tla, Close with 0..MaxIdle idle entries
+        tv, tcov, tass = trans_core(pid, TRANS_PLANS['C15'], tier, None, models=False)
+        uniq.extend(tv[:4])
+        cov['transport_layer'] = {k: tcov[k] for k in ('schedules_replayed', 'traces_validated_against_impl', 'trace_events')}
+        cov['traces_validated_against_impl'] += tcov['traces_validated_against_impl']
     cov['steps_replayed'] = sum(r.get('steps', 0) for r in results)
     cov['terminal_histories'] = sum(1 for s in scheds if s.get('terminal'))
     cov['samples'] = [[(s['a'], s['c']) for s in sc['steps']] for sc in scheds[-3:]] or ['none']
